@@ -231,7 +231,7 @@ func c19Model(cur map[string]string, data []byte, known map[string]string) (next
 	if !registered {
 		return next, true // non-strict: unregistered entity types change nothing
 	}
-	ck := coll + "|" + state.CompositeKey(msg.Type, msg.Key)
+	ck := coll + "|" + compositeKey(msg.Type, msg.Key)
 	switch msg.Headers.Operation {
 	case "insert", "update":
 		val := []byte(msg.Value)
